@@ -43,9 +43,26 @@ impl AckedIndexer for Acks {
     }
 }
 
+/// Set to true by harnesses that want concrete ids 1..=n (large sets: the symbolic id matching
+/// dominates solver time there; the acknowledged indexes stay symbolic).
+static CONCRETE_IDS: std::sync::atomic::AtomicBool = std::sync::atomic::AtomicBool::new(false);
+
+pub fn committed_index_concrete_ids(s: &mut Src, n_in: usize, n_out: usize) {
+    CONCRETE_IDS.store(true, std::sync::atomic::Ordering::Relaxed);
+    committed_index(s, n_in, n_out, false);
+}
+
 /// distinct symbolic non-zero ids for one half
 fn half_ids(s: &mut Src, n: usize) -> [u64; NMAX] {
     let mut ids = [0u64; NMAX];
+    if CONCRETE_IDS.load(std::sync::atomic::Ordering::Relaxed) {
+        let mut i = 0;
+        while i < n {
+            ids[i] = 1 + i as u64;
+            i += 1;
+        }
+        return ids;
+    }
     let mut i = 0;
     while i < n {
         let id = s.u64();
@@ -78,6 +95,10 @@ fn mk_acks(s: &mut Src, a: &[u64; NMAX], na: usize, b: &[u64; NMAX], nb: usize, 
             }
             t.ids[t.n] = id;
             t.idx[t.n] = s.u64();
+            if CONCRETE_IDS.load(std::sync::atomic::Ordering::Relaxed) {
+                // large-set harness: 12-bit acknowledged indexes (stated bound) keep the solver time down
+                vassume!(t.idx[t.n] < (1 << 12));
+            }
             t.gid[t.n] = if groups { s.below(4) } else { 0 };
             t.present[t.n] = s.bool();
             // a duplicate row is never found by look() (first row wins): harmless
